@@ -50,6 +50,8 @@ struct Violation {
 };
 
 struct Kernel {
+	std::vector<int64_t> seq_ms;   // simulated time of every event, indexed by its sequence number
+	int64_t ms_at(uint64_t s) const { return s < seq_ms.size() ? seq_ms[s] : now_ms; }
 	// an engine that drives one service through another (HA over async) reports the inner service's exactly-once / liveness
 	// oracles under its own property: alias_from -> alias_to (known findings still match on the original id)
 	std::string alias_from, alias_to;
